@@ -105,6 +105,15 @@ pub fn reset() {
     })
 }
 
+/// Determinism runs (C20) replay the same case twice: restart the id counter so transcripts that
+/// mention value ids are comparable. Only safe when no value of an earlier case can still be alive.
+pub fn reset_ids() {
+    with(|l| {
+        l.recs.clear();
+        l.next_id = 1;
+    })
+}
+
 pub fn take_faults() -> Vec<String> {
     with(|l| std::mem::take(&mut l.faults))
 }
